@@ -124,6 +124,24 @@ def members(tier):
     line.append(('v=Auto1(a=1)', {'v': {'__obj__': 'Auto1', 'kwargs': {'a': 1}}}))
     for pad in (0, 1, 8, 'x'):
         line.append((f'v=Auto3(a=1,pad={pad!r})', {'v': {'__obj__': 'Auto3', 'kwargs': {'a': 1, 'pad': pad}}}))
+    for b in (None, False, '', [], 0.0):   # Auto1 keeps `b` only in a private attribute: falsy values must stay distinct
+        line.append((f'v=Auto1(a=1,b={b!r})', {'v': {'__obj__': 'Auto1', 'kwargs': {'a': 1, 'b': b}}}))
+        line.append((f'v=[Auto1(a=1,b={b!r})]', {'v': [{'__obj__': 'Auto1', 'kwargs': {'a': 1, 'b': b}}]}))
+    # the SAME container object occurring more than once in a value (YAML aliases, reused python lists)
+    A_, B_ = [1, 'a'], [2, 'b']
+    D_, E_ = {'k': 1}, {'k': 2}
+    for label, val in (('[A,B,A]', [A_, B_, A_]), ('[A,B,B]', [A_, B_, B_]), ('{x:D,y:E,z:D}', {'x': D_, 'y': E_, 'z': D_}), ('{x:D,y:E,z:E}', {'x': D_, 'y': E_, 'z': E_}),
+                       ('[A,[A]]', [A_, [A_]]), ('[A,[B]]', [A_, [B_]])):
+        line.append((f'v=shared {label}', {'v': val}))
+    # long values that differ in one element in the middle
+    ids = list(range(1000, 1400))
+    for pos in (0, 200, 399):
+        v2 = list(ids)
+        v2[pos] = 9999
+        line.append((f'v=ids[{pos}]=9999', {'v': v2}))
+    line.append(('v=ids', {'v': ids}))
+    for ch in 'MN':
+        line.append((f'v=long text {ch}', {'v': 'x' * 600 + ch + 'x' * 600}))
     for b in (0, 1, 2):
         line.append((f'v=Auto1(a=1,b={b})', {'v': {'__obj__': 'Auto1', 'kwargs': {'a': 1, 'b': b}}}))
         line.append((f'v=Auto2(a=1,c={b + 4})', {'v': {'__obj__': 'Auto2', 'kwargs': {'a': 1, 'c': b + 4}}}))
@@ -165,8 +183,8 @@ def run(tier, seed):
     jobs = []
     n = 48
     # object members stay in ONE shard in their original order (base class before subclass in one process)
-    plain = [mbr for mbr in line if '__obj__' not in jdump(mbr[1])]
-    objs = [mbr for mbr in line if '__obj__' in jdump(mbr[1])]
+    plain = [mbr for mbr in line if '__obj__' not in jdump(mbr[1]) and not mbr[0].startswith('v=shared')]
+    objs = [mbr for mbr in line if '__obj__' in jdump(mbr[1]) or mbr[0].startswith('v=shared')]
     for i in range(n):
         jobs.append(('line', plain[i::n]))
     jobs.append(('line', objs))
